@@ -424,7 +424,17 @@ def _run_shard(args):
         elif kind == "enumeration":
             # facet["items"](tier) -> list of JSON-able items; shards take a stride
             items = facet["items"](tier)
-            for i in range(shard, len(items), n_shards):
+            gk = facet.get("group_key")
+            if gk is None:
+                mine = range(shard, len(items), n_shards)
+            else:
+                # items with the same group key (e.g. one catalogue name with all its id permutations) are enumerated
+                # one after the other in the same process, so that anything the library keeps between them is seen
+                order = {}
+                for it in items:
+                    order.setdefault(repr(gk(it)), len(order))
+                mine = [i for i, it in enumerate(items) if order[repr(gk(it))] % n_shards == shard]
+            for i in mine:
                 try:
                     run_case(items[i])
                 except CheckFailure:
